@@ -8,3 +8,5 @@ import SpdxVerif.Props.C03
 #print axioms Spdx.C03.no_type_assertions_or_divisions
 #print axioms Spdx.C03.g_scan_never_panics
 #print axioms Spdx.C03.g_parse_full_never_panics
+#print axioms Spdx.C03.g_extract_never_derefs_nil
+#print axioms Spdx.C03.g_satisfies_never_derefs_nil
